@@ -283,6 +283,20 @@ def stream_work(arg):
     return total, len(states), viols
 
 
+def _samples(tier):
+    out = []
+    seqs = frame_sequences(tier)
+    for si in (9, 77, 300):
+        seq = seqs[si % len(seqs)]
+        data, want = encode_seq(seq)
+        cuts = next(itertools.islice(segmentations(len(data), tier), 37, None))
+        log, err, written = feed(data, cuts)
+        out.append({"frames": [(op.value, n) for op, n in seq], "stream_bytes": len(data), "cuts": list(cuts), "frames_delivered": len(log), "error": repr(err) if err else None})
+    f = build_frame(WebSocketOpCode.Binary, payload_of(65535), 1, KEYS[1])
+    out.append({"codec": {"opcode": 2, "mask": 1, "length": 65535, "header_hex": (f.serializeHeader() + f.serializeDataHeader()).hex()}})
+    return out
+
+
 def run(tier, seed):
     rep = core.Report()
     acc = {}
@@ -315,7 +329,7 @@ def run(tier, seed):
                 "stream: %d sequences of 1-3 masked client frames, every segmentation for N<=18 bytes (2^(N-1)), <=%d cuts otherwise; states = distinct (sequence, #cuts, #frames delivered)" % (
                     len(ls), "" if tier == "quick" else ", every length 0..2000, 65000..66200, every 97th to 70000", len(frame_sequences(tier)), 2 if tier == "quick" else 3),
         "exhaustive": True,
-        "samples": [{"codec": {"opcode": 2, "mask": 1, "length": 65535}}, {"stream": {"frames": [[1, 1], [9, 0]], "cuts": [1, 7, 8]}}],
+        "samples": _samples(tier),
     }
     rep.assumptions = ["client frames are produced by the reference encoder (masked, fin=1); fragmentation (fin=0) and control-frame interleaving are outside the statement"]
     return rep
